@@ -45,10 +45,11 @@ impl Monitor for C18 {
             ("crash_images_compared", tier.pick(10_000, 250_000)),
             ("crash_points_inside_calls_on_other_queues", tier.pick(5_000, 120_000)),
             ("queue_states_compared_after_crash", tier.pick(20_000, 500_000)),
+            ("crash_continuations_run", tier.pick(5_000, 100_000)),
         ]
     }
     fn rule(&self) -> String {
-        "case = one generated history H over k = 2..6 queues (gc / idle / delete / mixed profiles, restarts) under Always(Flush), run once in full and once per queue q as the projection H|q (the calls addressed to q plus every restart and persist, with the same payload bytes) on a fresh directory; evaluation = one call on q (outcome and exists/range/last_position of q identical in both runs), one restart comparison, or one queue compared after recovering a crash image of the FULL run (effect boundaries and torn writes inside calls addressed to other queues, and between calls) with its state in the projected run at the corresponding point; distinct_nontrivial = distinct (queue, its state digest, number of other-queue calls interleaved since its last call) among comparisons made after another queue's call unlinked a WAL file".into()
+        "case = one generated history H over k = 2..6 queues (gc / idle / delete / mixed profiles, restarts) under Always(Flush), run once in full and once per queue q as the projection H|q (the calls addressed to q plus every restart and persist, with the same payload bytes) on a fresh directory; evaluation = one call on q (outcome and exists/range/last_position of q identical in both runs), one restart comparison, or one queue compared after recovering a crash image of the FULL run (effect boundaries and torn writes inside calls addressed to other queues, and between calls) with its state in the projected run at the corresponding point; on sampled crash points (all torn writes) the rest of the history is replayed on the recovered log, the log restarted, and the other queues compared with the end of the full run; distinct_nontrivial = distinct (queue, its state digest, number of other-queue calls interleaved since its last call) among comparisons made after another queue's call unlinked a WAL file".into()
     }
     fn assumptions(&self) -> Vec<String> {
         vec!["crash leg: inside a call addressed to q itself the C02 tolerance applies and q is skipped; every other queue must be exactly as in its projection".into()]
@@ -263,8 +264,33 @@ fn compare_after_crash(
     acc: &mut Acc,
 ) -> bool {
     mat.sync(&b.cur);
-    let (r, sut, evs) = recover(&mat.dir, full.policy, full.key);
+    let (r, mut sut, evs) = recover(&mat.dir, full.policy, full.key);
     mat.touched_by(&evs);
+    // continuation (sampled): replay the REST of the history on the recovered log, restart,
+    // and require every queue other than the one addressed by the in-flight call to end up
+    // exactly as in the full run (i.e. as in its projection)
+    let mut continued: Option<Snapshot> = None;
+    let want_continuation = (point.get("bytes_of_write_applied").is_some() && acc.get("crash_images_compared") % 3 == 0) || acc.get("crash_images_compared") % 40 == 0;
+    if want_continuation {
+        if let (Recovered::Ok(_), Some(s)) = (&r, sut.as_mut()) {
+            let from = kidx.map(|k| k + 1).unwrap_or(0);
+            let mut ok = true;
+            for (i, op) in full.ops.iter().enumerate().skip(from) {
+                let o = s.apply(i, op);
+                if o.is_io_err() || matches!((op, &o), (Op::Restart, crate::ops::Outcome::Err(_))) {
+                    ok = false;
+                    break;
+                }
+            }
+            if ok && s.reopen(7_777_777).is_ok() {
+                continued = Snapshot::take(s.log()).ok();
+            }
+            let cevs = crate::shim::take_events(&mat.dir);
+            crate::shim::reset();
+            mat.touched_by(&cevs);
+            acc.count("crash_continuations_run");
+        }
+    }
     finish(sut, mat);
     acc.count("crash_images_compared");
     if inflight_q.is_some() {
@@ -304,6 +330,34 @@ fn compare_after_crash(
                 }),
             );
             return false;
+        }
+    }
+    if let Some(end) = continued {
+        let last = full.states.last().unwrap();
+        for q in names {
+            if inflight_q == Some(q.as_str()) {
+                continue;
+            }
+            acc.eval();
+            acc.count("queue_states_compared_after_crash_continuation_and_restart");
+            if last.queues.get(q) != end.queues.get(q) {
+                acc.violation(
+                    format!("C18/queue-differs-after-crash-continuation-restart/{}", match (last.queues.get(q), end.queues.get(q)) {
+                        (Some(_), None) => "queue-lost",
+                        (None, Some(_)) => "queue-appeared",
+                        (Some(a), Some(b)) if a.recs != b.recs => "records-differ",
+                        _ => "next-position-differs",
+                    }),
+                    case,
+                    json!({
+                        "history": full.history_json(full.ops.len()), "crash_point": point, "in_flight_call_addresses": inflight_q.map(short), "queue": short(q),
+                        "note": "after recovering the crash image the rest of the history was replayed, then the log was restarted",
+                        "expected_as_in_full_run": last.queues.get(q).map(|s| json!({"positions": crate::ops::span(&s.recs.iter().map(|r| r.pos).collect::<Vec<_>>()), "last_position": s.last_position})),
+                        "observed": end.queues.get(q).map(|s| json!({"positions": crate::ops::span(&s.recs.iter().map(|r| r.pos).collect::<Vec<_>>()), "last_position": s.last_position})),
+                    }),
+                );
+                return false;
+            }
         }
     }
     true
